@@ -378,7 +378,11 @@ func runBatch(o *SupOpts, p *Prop, bs *batchState, nb int, workDir string, limit
 			}
 			args = append(args, "-skip", strings.Join(ss, ","))
 		}
-		timedOut, _ := runChild(o, args, logp, limit, nil)
+		var env []string
+		if p.Env != nil {
+			env = p.Env(o.Root, bs.idx)
+		}
+		timedOut, _ := runChild(o, args, logp, limit, env)
 		if r, err := ReadResult(out); err == nil && !timedOut {
 			a.merge(r)
 			os.Remove(out)
